@@ -30,7 +30,7 @@ def callbacks_check(case, script):
     s.AddListener(Rec())
     sol, out = H.run_script(s, script)
     if sol is not None:
-        fails.extend(O.best_check(p, s, sol, where='returned Solution: '))
+        fails.extend(O.best_check(p, s, sol if script[-1][0] == 'solve' else s.GetResults(), where='final Solution: '))
     return fails
 
 
@@ -43,6 +43,9 @@ def run(chk):
     for _ in range(160 if thorough else 40):
         case = case_for_c04(rng)
         script = A.random_script(rng, case)
+        if rng.random() < 0.3:     # local refinement, possibly repeated
+            case['refine'] = rng.random() < 0.5
+            script = script + [('refine', rng.choice([3, 10, 40]))] + ([('refine', rng.choice([2, 4]))] if rng.random() < 0.5 else [])
         fails = O.guarded(lambda c: callbacks_check(c, script), case)
         chk.evaluations += 1
         chk.nontrivial += 1
